@@ -277,15 +277,38 @@ fn gen_c15_lander(rng: &mut Rng) -> Case {
     Case::File(FileCase { spec: FileSpec { knobs, entries: Entries::Literal(ents) }, env: EnvPlan::whole(), v1: false, big: None })
 }
 
-/// Data-block landers for large blocks: a value of 16384..=32767 bytes (three length bytes) followed
-/// by a value sized so that the block's uncompressed size lands exactly on (or one byte around) B.
+/// Data-block landers for large blocks: a value with two, three or four length bytes followed by a
+/// value sized so that the block's uncompressed size lands exactly on (or one byte around) B.
 fn gen_c15_data_lander(rng: &mut Rng) -> Case {
-    let b = rng.urange(20_000, 60_000);
-    let v1 = rng.urange(16_384, (b - 2_000).min(32_767));
-    // size after two entries with one-byte keys: 12 + (1 + 3 + 1 + v1) + (1 + vl(v2) + 1 + v2)
-    let rest = b - 12 - (5 + v1) - 2;
-    let vl = if rest - 3 >= 16_384 { 3 } else if rest - 2 >= 128 { 2 } else { 1 };
-    let v2 = (rest - vl) as i64 + rng.range(0, 2) as i64 - 1;
+    fn vl(x: usize) -> usize {
+        if x < 128 {
+            1
+        } else if x < 16_384 {
+            2
+        } else if x < (1 << 21) {
+            3
+        } else {
+            4
+        }
+    }
+    // the first value sits in a chosen length class (2, 3 or 4 length bytes), at the low end, the
+    // high end or anywhere inside it
+    let (lo, hi) = match rng.weighted(&[25, 50, 25]) {
+        0 => (128usize, 16_383usize),
+        1 => (16_384, (1 << 21) - 1),
+        _ => (1 << 21, (1 << 22) + 70_000),
+    };
+    let v1 = match rng.below(4) {
+        0 => lo + rng.urange(0, 40),
+        1 => hi - rng.urange(0, 40),
+        2 => rng.urange(lo, hi.min(lo.saturating_mul(2))),
+        _ => rng.urange(lo, hi),
+    };
+    let b = v1 + rng.urange(2_000, 40_000);
+    // size after two entries with one-byte keys: 12 + (1 + vl(v1) + 1 + v1) + (1 + vl(v2) + 1 + v2)
+    let rest = b - 12 - (2 + vl(v1) + v1) - 2;
+    let l2 = if rest - 3 >= 16_384 { 3 } else if rest - 2 >= 128 { 2 } else { 1 };
+    let v2 = (rest - l2) as i64 + rng.range(0, 2) as i64 - 1;
     let ents = vec![
         (B(vec![b'a']), B(vec![0x11; v1])),
         (B(vec![b'b']), B(vec![0x22; v2.max(0) as usize])),
